@@ -112,7 +112,15 @@ func runForeignStream(c *RCase, x *sim.Ctx) *sim.Violation {
 	if len(b.Content) > 0 {
 		x.Nontrivial(1)
 	}
-	res := runReader(b.Format, b.Stream, len(b.Content), c, 0, x)
+	rc := c
+	if c.RDict < 0 {
+		// exactly the dictionary the stream needs (a raw LZMA2 stream does not
+		// declare it): chunks larger than the reader's window then occur
+		d := *c
+		d.RDict = int(b.Dict)
+		rc = &d
+	}
+	res := runReader(b.Format, b.Stream, len(b.Content), rc, 0, x)
 	return checkSequentialModel(res, b.Content, b.Format)
 }
 
